@@ -163,9 +163,23 @@ CLAIMED["C09"] = {
     "technique": "TLA+ model of the filter dispatch model-checked over all clause skeletons, the same skeletons replayed on the real parser and translator, TLC trace validation",
 }
 
+CLAIMED["C10"] = {
+    "level": "model_checking",
+    "text": ("CypherExpr.tla models what the package query constructors build (Or/Not parenthesize, And/Xor do not), what the emitter writes "
+             "(with the repaired precedence-aware parenthesisation; the pinned emitter is kept as a negative control: 54 of 684 terms "
+             "regrouped) and the grammar's precedence-climbing parse; TLC checks Parse(Emit(Build(b))) = Meaning(b) for every term of depth "
+             "<= 2. The same terms are built with the real constructors, emitted by the real emitter and by the Neo4j query builder's "
+             "Render, parsed by the real parser, and TLC validates the parsed tree against the term's meaning; kind matchers with 1-3 kinds "
+             "are checked for their all-of / any-of meaning."),
+    "design_ref": "DESIGN.md 4/C07+C10",
+    "note": ("Covers boolean criteria (And/Or/Xor/Not over comparison, null, in, kind atoms) and kind matchers. NOT covered yet: projections, "
+             "ordering, pagination, updates, literal type/value fidelity; the Neo4j builder's deliberate rewrite of negated string predicates is "
+             "excluded."),
+    "technique": "TLA+ emit/parse/build model checked exhaustively over builder terms + the same terms replayed through the real builder, emitter and parser with TLC trace validation",
+}
+
 _NB = "not built yet in this round (design in DESIGN.md section 4)"
 NOT_APPLICABLE = {
     "C01": "needs the emitted SQL executed on PostgreSQL; no SQL engine exists in this sandbox and a TLA+ model of PostgreSQL would verify the model, not DAWGS (DESIGN.md section 5)",
-    "C02": _NB, "C03": _NB, "C04": _NB, "C05": _NB, "C06": _NB, "C07": _NB, "C08": _NB, "C10": _NB,
-    "C11": _NB, 
+    "C02": _NB, "C03": _NB, "C04": _NB, "C05": _NB, "C06": _NB, "C07": _NB, "C08": _NB,     "C11": _NB, 
 }
